@@ -42,6 +42,13 @@ def from_circuit(circuit: CircuitTemplate, return_dict: dict, base: str = 'Circu
 
     new_dict = {'base': base, 'circuits': {}, 'nodes': {}, 'edges': []}
 
+    # populations and connections have no YAML representation: refuse instead of writing the population's base node as one
+    # plain node and dropping the Connectivity objects (the re-loaded circuit would silently be a different model)
+    if circuit.populations or circuit.connections:
+        from pyrates.ir.circuit import PyRatesException
+        raise PyRatesException(f"CircuitTemplate `{circuit.name}` contains PopulationTemplate / Connectivity objects, which "
+                               f"cannot be written to YAML.")
+
     if circuit.circuits:
 
         # collect circuit definitions
